@@ -22,6 +22,8 @@ use std::pin::Pin;
 use std::sync::Arc;
 
 pub(crate) struct XPubSubscriber {
+    /// The number of the connection (see `backend::next_conn`)
+    pub(crate) conn: u64,
     pub(crate) subscriptions: Vec<Vec<u8>>,
     pub(crate) send_queue: Pin<Box<ZmqFramedWrite>>,
 }
@@ -98,10 +100,12 @@ impl MultiPeerBackend for XPubSocketBackend {
     async fn peer_connected(self: Arc<Self>, peer_id: &PeerIdentity, io: FramedIo) {
         let (recv_queue, send_queue) = io.into_parts();
 
+        let conn = crate::backend::next_conn();
         self.subscribers
             .upsert_async(
                 peer_id.clone(),
                 XPubSubscriber {
+                    conn,
                     subscriptions: vec![],
                     send_queue: Box::pin(send_queue),
                 },
@@ -110,13 +114,22 @@ impl MultiPeerBackend for XPubSocketBackend {
 
         self.fair_queue_inner
             .lock()
-            .insert(peer_id.clone(), recv_queue);
+            .insert_conn(peer_id.clone(), conn, recv_queue);
     }
 
     fn peer_disconnected(&self, peer_id: &PeerIdentity) {
         log::info!("Client disconnected {:?}", peer_id);
         self.subscribers.remove_sync(peer_id);
         self.fair_queue_inner.lock().remove(peer_id);
+    }
+}
+
+impl crate::backend::ForgetConn for XPubSocketBackend {
+    fn forget_conn(&self, peer_id: &PeerIdentity, conn: u64) {
+        log::info!("Client disconnected {:?}", peer_id);
+        self.subscribers
+            .remove_if_sync(peer_id, |subscriber| subscriber.conn == conn);
+        self.fair_queue_inner.lock().remove_conn(peer_id, conn);
     }
 }
 
@@ -150,7 +163,7 @@ impl SocketSend for XPubSocket {
                         Ok(()) => {}
                         Err(ZmqError::Codec(CodecError::Io(e))) => {
                             if e.kind() == ErrorKind::BrokenPipe {
-                                dead_peers.push(subscriber.key().clone());
+                                dead_peers.push((subscriber.key().clone(), subscriber.conn));
                             } else {
                                 log::error!("Error sending message: {:?}", e);
                             }
@@ -170,8 +183,8 @@ impl SocketSend for XPubSocket {
             }
             iter = subscriber.next_async().await;
         }
-        for peer in dead_peers {
-            self.backend.peer_disconnected(&peer);
+        for (peer, conn) in dead_peers {
+            crate::backend::ForgetConn::forget_conn(&*self.backend, &peer, conn);
         }
         Ok(())
     }
@@ -193,7 +206,11 @@ impl SocketRecv for XPubSocket {
                     // Ignore non-message frames
                 }
                 Some((peer_id, Err(e))) => {
-                    self.backend.peer_disconnected(&peer_id);
+                    crate::backend::ForgetConn::forget_conn(
+                        &*self.backend,
+                        &peer_id,
+                        self.fair_queue.last_conn(),
+                    );
                     return Err(e.into());
                 }
                 None => {
